@@ -112,6 +112,20 @@ def constructor_matrix():
                 chk(w.eq(tr.timeout, kw.get("timeout", 1.0)), "timeout ignored")
                 chk(w.eq(tr.reconnect_timeout, kw.get("reconnect_timeout", 10.0)),
                     "reconnect_timeout ignored")
+            # behavioural probe: the options still take effect on the first message, whatever
+            # the other options are (e.g. persistence without an event callback)
+            if gw.tasks.persistence is not None:
+                gw.tasks.persistence.need_save = False  # as after the initial save
+            try:
+                w.call(gw.logic, "1;255;0;0;17;2.0\n")
+            except Exception as exc:
+                w.escaped(exc, f"{name}: first message raised")
+            chk(1 in gw.sensors, "node presentation not recorded")
+            chk(len(cb.calls) == (1 if "event_callback" in kw else 0),
+                "event callback option has no effect on the first state-changing message")
+            if "persistence" in kw:
+                chk(gw.tasks.persistence.need_save is True,
+                    "persistence=True has no effect: a state change is not marked for saving")
             w.goal("constructed")
     return fn
 
